@@ -1,7 +1,1089 @@
-From Coq Require Import ZArith List Bool Lia.
+(* C11 - proofs about SE/SEModel.v (varints, exact size, round trip, refutations). *)
+From Coq Require Import ZArith Znumtheory List Bool Lia Permutation.
 Require Import Verif.Gen.Gen_serialization Verif.SE.SEModel.
 Import ListNotations.
 Local Open Scope Z_scope.
 
-Lemma se_stub : encode (TS KI32) (VInt 1) = [1].
+
+(* ---------- varints ---------- *)
+Lemma pow128_S : forall f, 128 ^ Z.of_nat (S f) = 128 * 128 ^ Z.of_nat f.
+Proof. intros. rewrite Nat2Z.inj_succ, Z.pow_succ_r by lia. reflexivity. Qed.
+
+Lemma get_varint_aux : forall fuel n post, (0 < fuel)%nat -> 0 <= n < 128 ^ Z.of_nat fuel ->
+  get_varint fuel (varint_aux fuel n ++ post) = Some (n, post).
+Proof.
+  induction fuel as [|f IH]; intros n post Hf H.
+  - lia.
+  - rewrite pow128_S in H. cbn [varint_aux].
+    destruct (n <? 128) eqn:E.
+    + cbn. rewrite E. reflexivity.
+    + apply Z.ltb_ge in E. cbn [app get_varint].
+      assert (Hb : n mod 128 + 128 <? 128 = false) by (apply Z.ltb_ge; pose proof (Z.mod_pos_bound n 128); lia).
+      rewrite Hb. rewrite IH.
+      * f_equal. f_equal. pose proof (Z.div_mod n 128). lia.
+      * destruct f. simpl in H. lia. lia.
+      * split. apply Z.div_pos; lia. apply Z.div_lt_upper_bound; lia.
+Qed.
+
+Lemma get_varint_varint : forall n post, 0 <= n < 2 ^ 64 -> get_varint 10 (varint n ++ post) = Some (n, post).
+Proof. intros. apply get_varint_aux. lia. change (128 ^ Z.of_nat 10) with (2 ^ 70). lia. Qed.
+
+Lemma varint_aux_nonempty : forall f n, varint_aux (S f) n <> [].
+Proof. intros. cbn. destruct (n <? 128); discriminate. Qed.
+
+Definition vlen_spec (n : Z) : Z := Z.log2 (Z.lor n 1) / 7 + 1.
+
+Lemma log2_lor1 : forall n, 1 <= n -> Z.log2 (Z.lor n 1) = Z.log2 n.
+Proof. intros. rewrite Z.log2_lor by lia. change (Z.log2 1) with 0. pose proof (Z.log2_nonneg n). lia. Qed.
+
+Lemma varint_aux_length : forall fuel n, (0 < fuel)%nat -> 0 <= n < 128 ^ Z.of_nat fuel ->
+  Z.of_nat (length (varint_aux fuel n)) = vlen_spec n.
+Proof.
+  induction fuel as [|f IH]; intros n Hf H.
+  - lia.
+  - rewrite pow128_S in H. cbn [varint_aux]. unfold vlen_spec.
+    destruct (n <? 128) eqn:E.
+    + apply Z.ltb_lt in E. cbn [length].
+      assert (Z.log2 (Z.lor n 1) < 7).
+      { destruct (Z.eq_dec n 0) as [->|]. cbn. lia. rewrite log2_lor1 by lia. apply Z.log2_lt_pow2; lia. }
+      pose proof (Z.log2_nonneg (Z.lor n 1)). rewrite Z.div_small by lia. reflexivity.
+    + apply Z.ltb_ge in E. cbn [length]. rewrite Nat2Z.inj_succ, IH.
+      * unfold vlen_spec. assert (1 <= n / 128) by (apply Z.div_le_lower_bound; lia).
+        rewrite !log2_lor1 by lia. change 128 with (2 ^ 7). rewrite <- (Z.shiftr_div_pow2 n 7) by lia. rewrite Z.log2_shiftr by lia.
+        assert (7 <= Z.log2 n) by (apply Z.log2_le_pow2; lia).
+        rewrite Z.max_r by lia. replace (Z.log2 n) with ((Z.log2 n - 7) + 1 * 7) at 2 by lia.
+        rewrite Z.div_add by lia. lia.
+      * destruct f. simpl in H. lia. lia.
+      * split. apply Z.div_pos; lia. apply Z.div_lt_upper_bound; lia.
+Qed.
+
+Lemma size_formula_table :
+  forallb (fun l => (varint_size_of_log2 l =? l / 7 + 1) && ((l * 9 + 73) / 64 =? l / 7 + 1))
+          (map Z.of_nat (seq 0 64)) = true.
 Proof. vm_compute. reflexivity. Qed.
+
+Lemma size_formula : forall l, 0 <= l < 64 ->
+  varint_size_of_log2 l = l / 7 + 1 /\ (l * 9 + 73) / 64 = l / 7 + 1.
+Proof.
+  intros l H. pose proof size_formula_table as T. rewrite forallb_forall in T.
+  specialize (T l). assert (In l (map Z.of_nat (seq 0 64))).
+  { apply in_map_iff. exists (Z.to_nat l). split. lia. apply in_seq. lia. }
+  apply T in H0. apply andb_prop in H0. destruct H0 as [A B]. apply Z.eqb_eq in A. apply Z.eqb_eq in B. auto.
+Qed.
+
+Lemma log2_lor1_bound : forall n, 0 <= n < 2 ^ 64 -> 0 <= Z.log2 (Z.lor n 1) < 64.
+Proof.
+  intros. split. apply Z.log2_nonneg.
+  destruct (Z.eq_dec n 0) as [->|]. cbn. lia. rewrite log2_lor1 by lia. apply Z.log2_lt_pow2; lia.
+Qed.
+
+Lemma varint_length_bb : forall n, 0 <= n < 2 ^ 64 -> Z.of_nat (length (varint n)) = bb_varint_size n.
+Proof.
+  intros. unfold varint. rewrite varint_aux_length by (try lia; change (128 ^ Z.of_nat 10) with (2 ^ 70); lia).
+  unfold bb_varint_size, vlen_spec. symmetry. apply size_formula. apply log2_lor1_bound; auto.
+Qed.
+Lemma varint_length_pb : forall n, 0 <= n < 2 ^ 64 -> Z.of_nat (length (varint n)) = pb_varint_size n.
+Proof.
+  intros. unfold varint. rewrite varint_aux_length by (try lia; change (128 ^ Z.of_nat 10) with (2 ^ 70); lia).
+  unfold pb_varint_size, vlen_spec. symmetry. apply size_formula. apply log2_lor1_bound; auto.
+Qed.
+Lemma varint_nonempty : forall n, varint n <> [].
+Proof. intros. apply varint_aux_nonempty. Qed.
+
+
+(* ---------- induction principle for the nested type ---------- *)
+Section TyInd.
+  Variable P : ty -> Prop.
+  Hypothesis HS : forall k, P (TS k).
+  Hypothesis HStr : P TStr.
+  Hypothesis HVec : forall e, P e -> P (TVec e).
+  Hypothesis HList : forall e, P e -> P (TList e).
+  Hypothesis HSet : forall e, P e -> P (TSet e).
+  Hypothesis HMap : forall k v, P k -> P v -> P (TMap k v).
+  Hypothesis HArr : forall n e, P e -> P (TArr n e).
+  Hypothesis HPtr : forall sh e, P e -> P (TPtr sh e).
+  Hypothesis HAgg : forall fs, Forall (fun p => P (snd p)) fs -> P (TAgg fs).
+  Fixpoint ty_ind' (t : ty) : P t :=
+    match t with
+    | TS k => HS k
+    | TStr => HStr
+    | TVec e => HVec e (ty_ind' e)
+    | TList e => HList e (ty_ind' e)
+    | TSet e => HSet e (ty_ind' e)
+    | TMap k v => HMap k v (ty_ind' k) (ty_ind' v)
+    | TArr n e => HArr n e (ty_ind' e)
+    | TPtr sh e => HPtr sh e (ty_ind' e)
+    | TAgg fs => HAgg fs ((fix go (l : list (Z * ty)) : Forall (fun p => P (snd p)) l :=
+                             match l with
+                             | [] => Forall_nil _
+                             | p :: r => Forall_cons p (ty_ind' (snd p)) (go r)
+                             end) fs)
+    end.
+End TyInd.
+
+(* ---------- well-formed values ---------- *)
+Definition in_range (k : sk) (z : Z) : Prop :=
+  match k with
+  | KBool => 0 <= z <= 1
+  | KI8 => - 2 ^ 7 <= z < 2 ^ 7 | KI16 => - 2 ^ 15 <= z < 2 ^ 15 | KI32 | KEnum => - 2 ^ 31 <= z < 2 ^ 31
+  | KU8 => 0 <= z < 2 ^ 8 | KU16 => 0 <= z < 2 ^ 16 | KU32 | KF32 => 0 <= z < 2 ^ 32
+  | KI64 => - 2 ^ 63 <= z < 2 ^ 63 | KU64 | KF64 => 0 <= z < 2 ^ 64
+  end.
+
+Definition small (z : Z) : Prop := z < 2 ^ 31.
+
+(* shape, scalar ranges, serialized sizes below 2^31 *)
+Fixpoint wf (t : ty) (v : val) {struct t} : Prop :=
+  match t, v with
+  | TS k, VInt z => in_range k z
+  | TStr, VStr b => True
+  | TVec e, VSeq l | TList e, VSeq l | TSet e, VSeq l =>
+      (fix go (l : list val) : Prop := match l with [] => True | x :: r => wf e x /\ small (ssize e x) /\ go r end) l
+  | TArr n e, VSeq l =>
+      length l = n /\
+      (fix go (l : list val) : Prop := match l with [] => True | x :: r => wf e x /\ small (ssize e x) /\ go r end) l
+  | TMap k w, VSeq l =>
+      (fix go (l : list val) : Prop :=
+         match l with
+         | [] => True
+         | VSeq [a; b] :: r => wf k a /\ small (ssize k a) /\ wf w b /\ small (ssize w b) /\ go r
+         | _ :: _ => False
+         end) l
+  | TPtr _ e, VNull => True
+  | TPtr _ e, VSome x => wf e x
+  | TAgg fs, VSeq l =>
+      (fix go (fs : list (Z * ty)) (l : list val) {struct fs} : Prop :=
+         match fs, l with
+         | [], [] => True
+         | (_, ft) :: fs', x :: l' => wf ft x /\ small (ssize ft x) /\ go fs' l'
+         | _, _ => False
+         end) fs l
+  | _, _ => False
+  end.
+
+Definition welems (e : ty) (l : list val) : Prop := Forall (fun x => wf e x /\ small (ssize e x)) l.
+Lemma wf_elems : forall e l,
+  (fix go (l : list val) : Prop := match l with [] => True | x :: r => wf e x /\ small (ssize e x) /\ go r end) l
+  <-> welems e l.
+Proof.
+  intros e l. unfold welems. induction l as [|x r IH]; split; intro H.
+  - constructor. - exact I.
+  - destruct H as (A & B & C). constructor; [auto|]. apply IH. exact C.
+  - inversion H as [|? ? [A B] C]; subst. split; [auto|]. split; [auto|]. apply IH. exact C.
+Qed.
+
+(* ---------- sizes ---------- *)
+Lemma sumZ_app : forall a b, sumZ (a ++ b) = sumZ a + sumZ b.
+Proof. induction a; intros; cbn. reflexivity. unfold sumZ in *. cbn. rewrite IHa. lia. Qed.
+
+Lemma le_bytes_length : forall n z, length (le_bytes n z) = n.
+Proof. induction n; intros; cbn; auto. Qed.
+
+Lemma u32_range : forall z, 0 <= u32 z < 2 ^ 64.
+Proof. intros. unfold u32. pose proof (Z.mod_pos_bound z (2 ^ 32)). lia. Qed.
+Lemma u64_range : forall z, 0 <= u64 z < 2 ^ 64.
+Proof. intros. unfold u64. pose proof (Z.mod_pos_bound z (2 ^ 64)). lia. Qed.
+
+Lemma sk_size_exact : forall k z, sk_size k z = Z.of_nat (length (sk_encode k z)).
+Proof.
+  intros. destruct k; cbn [sk_size sk_encode];
+    try (rewrite varint_length_pb; [reflexivity|apply u32_range]);
+    try (rewrite varint_length_pb; [reflexivity|apply u64_range]);
+    rewrite le_bytes_length; reflexivity.
+Qed.
+
+Lemma packed_length : forall e sz body, 0 <= sz < 2 ^ 64 -> sz = Z.of_nat (length body) ->
+  packed_size e sz = Z.of_nat (length (packed e sz body)).
+Proof.
+  intros. unfold packed_size, packed. destruct (is_ld e).
+  - rewrite app_length, Nat2Z.inj_add, varint_length_bb by auto. lia.
+  - cbn. auto.
+Qed.
+
+Lemma skipped_same : forall sz, field_skipped sz = size_field_skipped sz.
+Proof. intros. reflexivity. Qed.
+
+Lemma tag_range : forall num t, 0 <= num < 2 ^ 29 -> 0 <= tag_of num t < 2 ^ 32.
+Proof.
+  intros. unfold tag_of, tag_base.
+  assert (0 <= wire t < 8).
+  { induction t; cbn; try lia. destruct k; cbn; lia. }
+  rewrite Z.shiftl_mul_pow2 by lia.
+  assert (Hd : Z.lor (num * 2 ^ 3) (wire t) = num * 2 ^ 3 + wire t).
+  { rewrite <- Z.lxor_lor. 2:{ apply Z.bits_inj'. intros n Hn. rewrite Z.land_spec, Z.bits_0.
+      destruct (Z.ltb_spec n 3).
+      - rewrite Z.mul_pow2_bits_low by lia. reflexivity.
+      - rewrite (Z.bits_above_log2 (wire t)). apply andb_false_r. lia.
+        destruct (Z.eq_dec (wire t) 0) as [->|]. cbn. lia.
+        apply Z.log2_lt_pow2; try lia. apply Z.lt_le_trans with (2 ^ 3). lia. apply Z.pow_le_mono_r; lia. }
+    symmetry. apply Z.add_nocarry_lxor. apply Z.bits_inj'. intros n Hn. rewrite Z.land_spec, Z.bits_0.
+    destruct (Z.ltb_spec n 3).
+    - rewrite Z.mul_pow2_bits_low by lia. reflexivity.
+    - rewrite (Z.bits_above_log2 (wire t)). apply andb_false_r. lia.
+      destruct (Z.eq_dec (wire t) 0) as [->|]. cbn. lia.
+      apply Z.log2_lt_pow2; try lia. apply Z.lt_le_trans with (2 ^ 3). lia. apply Z.pow_le_mono_r; lia. }
+  rewrite Hd. lia.
+Qed.
+
+
+Lemma wire_range : forall t, 0 <= wire t < 8.
+Proof. induction t; cbn; try lia. destruct k; cbn; lia. Qed.
+
+Lemma tag_of_add : forall num t, 0 <= num -> tag_of num t = num * 8 + wire t.
+Proof.
+  intros. unfold tag_of, tag_base. pose proof (wire_range t).
+  rewrite Z.shiftl_mul_pow2 by lia. change (2 ^ 3) with 8.
+  assert (Hl : Z.land (num * 8) (wire t) = 0).
+  { apply Z.bits_inj'. intros n Hn. rewrite Z.land_spec, Z.bits_0.
+    destruct (Z.ltb_spec n 3).
+    - change 8 with (2 ^ 3). rewrite Z.mul_pow2_bits_low by lia. reflexivity.
+    - rewrite (Z.bits_above_log2 (wire t)). apply andb_false_r. lia.
+      destruct (Z.eq_dec (wire t) 0) as [->|]. cbn. lia.
+      apply Z.log2_lt_pow2; try lia. apply Z.lt_le_trans with (2 ^ 3). lia. apply Z.pow_le_mono_r; lia. }
+  rewrite <- Z.lxor_lor by exact Hl. symmetry. apply Z.add_nocarry_lxor. exact Hl.
+Qed.
+
+(* ---------- admissible types ---------- *)
+Definition elem_ok (e : ty) : bool := match e with TPtr _ _ => is_ld e | _ => true end.
+Fixpoint ty_ok (t : ty) : Prop :=
+  match t with
+  | TS _ | TStr => True
+  | TVec e | TList e | TSet e | TArr _ e => elem_ok e = true /\ ty_ok e
+  | TMap k v => elem_ok k = true /\ elem_ok v = true /\ ty_ok k /\ ty_ok v
+  | TPtr _ e => ty_ok e
+  | TAgg fs => NoDup (map fst fs) /\
+               (fix go (fs : list (Z * ty)) : Prop :=
+                  match fs with [] => True | p :: r => 0 < fst p < 2 ^ 29 /\ ty_ok (snd p) /\ go r end) fs
+  end.
+Definition fields_ok (fs : list (Z * ty)) : Prop := Forall (fun p => 0 < fst p < 2 ^ 29 /\ ty_ok (snd p)) fs.
+Lemma ty_ok_fields : forall fs,
+  (fix go (fs : list (Z * ty)) : Prop :=
+     match fs with [] => True | p :: r => 0 < fst p < 2 ^ 29 /\ ty_ok (snd p) /\ go r end) fs <-> fields_ok fs.
+Proof.
+  unfold fields_ok. induction fs as [|p r IH]; split; intro H.
+  - constructor. - exact I.
+  - destruct H as (A & B & C). constructor; [auto|]. apply IH, C.
+  - inversion H as [|? ? [A B] C]; subst. split; [auto|]. split; [auto|]. apply IH, C.
+Qed.
+
+(* ---------- the predicted size is the number of bytes written ---------- *)
+Definition size_ok (t : ty) : Prop := forall v, ty_ok t -> wf t v -> ssize t v = Z.of_nat (length (encode t v)).
+
+Lemma seq_size_exact : forall e l, size_ok e -> ty_ok e -> welems e l ->
+  sumZ (map (fun x => packed_size e (ssize e x)) l) =
+  Z.of_nat (length (flat_map (fun x => packed e (ssize e x) (encode e x)) l)).
+Proof.
+  intros e l He Hok Hl. induction Hl as [|x r [Hx Hs] _ IH]; cbn. reflexivity.
+  rewrite app_length, Nat2Z.inj_add, <- IH. f_equal.
+  pose proof (He x Hok Hx) as E. apply packed_length; [|exact E]. unfold small in Hs. lia.
+Qed.
+
+Lemma field_length : forall num t sz body, 0 < num < 2 ^ 29 -> 0 <= sz < 2 ^ 64 -> sz = Z.of_nat (length body) ->
+  field_size num t sz = Z.of_nat (length (field num t sz body)).
+Proof.
+  intros. unfold field_size, field. rewrite <- skipped_same. destruct (field_skipped sz). reflexivity.
+  pose proof (tag_range num t). rewrite !app_length, !Nat2Z.inj_add, varint_length_bb by lia.
+  destruct (is_ld t).
+  - rewrite varint_length_bb by lia. lia.
+  - cbn. lia.
+Qed.
+
+Theorem size_exact : forall t, size_ok t.
+Proof.
+  induction t using ty_ind'; intros v Hok Hwf; destruct v; cbn [wf] in Hwf; try contradiction.
+  - apply sk_size_exact.
+  - reflexivity.
+  - destruct Hok. apply wf_elems in Hwf. cbn [ssize encode]. apply seq_size_exact; auto.
+  - destruct Hok. apply wf_elems in Hwf. cbn [ssize encode]. apply seq_size_exact; auto.
+  - destruct Hok. apply wf_elems in Hwf. cbn [ssize encode]. apply seq_size_exact; auto.
+  - (* map *)
+    destruct Hok as (_ & _ & Hk & Hv). cbn [ssize encode].
+    induction l as [|p r IH]. reflexivity.
+    destruct p as [| |[|a [|b [|]]]| |]; try contradiction.
+    destruct Hwf as (Wa & Sa & Wb & Sb & Hr).
+    cbn [map flat_map]. change (sumZ (?x :: ?y)) with (x + sumZ y).
+    rewrite !app_length, !Nat2Z.inj_add, <- IH by exact Hr.
+    rewrite <- (packed_length t1 (ssize t1 a) (encode t1 a)), <- (packed_length t2 (ssize t2 b) (encode t2 b)).
+    lia.
+    + pose proof (IHt2 b Hv Wb). unfold small in Sb. lia.
+    + apply IHt2; auto.
+    + pose proof (IHt1 a Hk Wa). unfold small in Sa. lia.
+    + apply IHt1; auto.
+  - destruct Hok. destruct Hwf as [_ Hwf]. apply wf_elems in Hwf. cbn [ssize encode]. apply seq_size_exact; auto.
+  - cbn. reflexivity.
+  - cbn [ssize encode]. apply IHt; auto.
+  - (* aggregate *)
+    destruct Hok as [_ Hf]. apply ty_ok_fields in Hf. cbn [ssize encode].
+    revert l Hwf. induction fs as [|[num ft] fs IH]; intros l Hwf.
+    + reflexivity.
+    + destruct l as [|x l]; [contradiction|]. destruct Hwf as (Wx & Sx & Hr).
+      inversion H as [|? ? Hft Hrest]; subst. inversion Hf as [|? ? [Hn Hokft] Hfr]; subst. cbn [fst snd] in *.
+      rewrite app_length, Nat2Z.inj_add, <- (IH Hrest Hfr l Hr).
+      f_equal. pose proof (Hft x Hokft Wx). apply field_length; auto. unfold small in Sx. lia.
+Qed.
+
+
+Definition S0 (w : list Z) : stream := mkS w (Some 0%nat).
+
+Lemma read_varint_ok : forall n post ext, 0 <= n < 2 ^ 64 ->
+  read_varint (mkS (varint n ++ post) ext) = VOk n (mkS post ext).
+Proof. intros. unfold read_varint. cbn [win]. rewrite get_varint_varint by auto. reflexivity. Qed.
+
+Lemma le_val_bytes : forall n z, 0 <= z < 256 ^ Z.of_nat n -> le_val (le_bytes n z) = z.
+Proof.
+  induction n; intros z H.
+  - cbn in *. lia.
+  - rewrite Nat2Z.inj_succ, Z.pow_succ_r in H by lia. cbn [le_bytes le_val]. rewrite IHn.
+    + pose proof (Z.div_mod z 256). lia.
+    + split. apply Z.div_pos; lia. apply Z.div_lt_upper_bound; lia.
+Qed.
+
+Lemma firstn_app_exact : forall (a b : list Z), firstn (length a) (a ++ b) = a.
+Proof. intros. rewrite firstn_app, Nat.sub_diag, firstn_O, app_nil_r, firstn_all. reflexivity. Qed.
+Lemma skipn_app_exact : forall (a b : list Z), skipn (length a) (a ++ b) = b.
+Proof. intros. rewrite skipn_app, Nat.sub_diag, skipn_O, skipn_all. reflexivity. Qed.
+
+Lemma read_fixed_ok : forall n z post ext, 0 <= z < 256 ^ Z.of_nat n ->
+  read_fixed n (mkS (le_bytes n z ++ post) ext) = Some (z, mkS post ext).
+Proof.
+  intros. unfold read_fixed. cbn [win]. rewrite app_length, le_bytes_length.
+  replace (n <=? n + length post)%nat with true by (symmetry; apply Nat.leb_le; lia).
+  pose proof (firstn_app_exact (le_bytes n z) post) as F. pose proof (skipn_app_exact (le_bytes n z) post) as K.
+  rewrite le_bytes_length in F, K. rewrite F, K, le_val_bytes by auto. reflexivity.
+Qed.
+
+Lemma swrap_id : forall b z, 0 < b -> - 2 ^ (b - 1) <= z < 2 ^ (b - 1) -> swrap b (z mod 2 ^ b) = z.
+Proof.
+  intros b z Hb H. unfold swrap.
+  assert (E : 2 ^ b = 2 * 2 ^ (b - 1)).
+  { replace b with (Z.succ (b - 1)) at 1 by lia. rewrite Z.pow_succ_r by lia. reflexivity. }
+  rewrite Zplus_mod_idemp_l.
+  replace ((z + 2 ^ (b - 1)) mod 2 ^ b) with (z + 2 ^ (b - 1)). lia.
+  symmetry. apply Z.mod_small. lia.
+Qed.
+
+Lemma mod_mod_le : forall z a b, 0 <= a <= b -> (z mod 2 ^ b) mod 2 ^ a = z mod 2 ^ a.
+Proof.
+  intros. symmetry. apply Zmod_div_mod; try (apply Z.pow_pos_nonneg; lia).
+  exists (2 ^ (b - a)). rewrite <- Z.pow_add_r by lia. f_equal. lia.
+Qed.
+
+Lemma swrap_mod_le : forall a b z, 0 < a <= b -> - 2 ^ (a - 1) <= z < 2 ^ (a - 1) -> swrap a (z mod 2 ^ b) = z.
+Proof.
+  intros. unfold swrap. rewrite <- Zplus_mod_idemp_l, mod_mod_le by lia. rewrite Zplus_mod_idemp_l.
+  fold (swrap a z). rewrite <- (swrap_id a z) at 2 by lia. unfold swrap. rewrite Zplus_mod_idemp_l. reflexivity.
+Qed.
+
+Lemma sk_cast_rt32 : forall k z, in_range k z ->
+  match k with KI64 | KU64 | KEnum | KF32 | KF64 => True | _ => sk_cast k (u32 (u32 z)) = z end.
+Proof.
+  intros k z H. unfold u32. destruct k; cbn [in_range sk_cast] in *; auto; rewrite ?Z.mod_mod by lia.
+  - assert (z = 0 \/ z = 1) as [->| ->] by lia; reflexivity.
+  - apply (swrap_mod_le 8 32); lia.
+  - apply (swrap_mod_le 16 32); lia.
+  - apply (swrap_mod_le 32 32); lia.
+  - rewrite (mod_mod_le z 8 32) by lia. apply Z.mod_small. lia.
+  - rewrite (mod_mod_le z 16 32) by lia. apply Z.mod_small. lia.
+  - apply Z.mod_small. lia.
+Qed.
+
+Lemma sk_cast_rt64 : forall k z, in_range k z ->
+  match k with KI64 | KU64 | KEnum => sk_cast k (u64 (u64 z)) = z | _ => True end.
+Proof.
+  intros k z H. unfold u64. destruct k; cbn [in_range sk_cast] in *; auto; rewrite ?Z.mod_mod by lia.
+  - apply (swrap_mod_le 64 64); lia.
+  - apply Z.mod_small. lia.
+  - apply (swrap_mod_le 32 64); lia.
+Qed.
+
+Lemma dec_scalar_rt : forall k z post ext cur, in_range k z ->
+  dec_scalar k (mkS (sk_encode k z ++ post) ext) cur = Ok (VInt z) (mkS post ext).
+Proof.
+  intros k z post ext cur H.
+  pose proof (sk_cast_rt32 k z H) as C32. pose proof (sk_cast_rt64 k z H) as C64.
+  destruct k; cbn [dec_scalar sk_encode] in *;
+    try (rewrite read_varint_ok by apply u32_range; rewrite C32; reflexivity);
+    try (rewrite read_varint_ok by apply u64_range; rewrite C64; reflexivity).
+  - rewrite read_fixed_ok. reflexivity. cbn [in_range] in H. change (256 ^ Z.of_nat 4) with (2 ^ 32). lia.
+  - rewrite read_fixed_ok. reflexivity. cbn [in_range] in H. change (256 ^ Z.of_nat 8) with (2 ^ 64). lia.
+Qed.
+
+Lemma sk_encode_nonempty : forall k z, sk_encode k z <> [].
+Proof. intros. destruct k; cbn; try apply varint_nonempty; discriminate. Qed.
+
+(* ---------- limits ---------- *)
+Lemma with_limit_exact : forall body post d cur v,
+  d (S0 body) cur = Ok v (S0 []) ->
+  with_limit (Z.of_nat (length body)) (S0 (body ++ post)) d cur = Ok v (S0 post).
+Proof.
+  intros body post d cur v Hd. unfold with_limit, S0. cbn [win ext].
+  replace (0 <=? Z.of_nat (length body)) with true by (symmetry; apply Z.leb_le; lia). cbn [andb].
+  rewrite Nat.add_0_r, app_length, Nat2Z.id.
+  destruct post as [|p post].
+  - rewrite Nat.add_0_r. replace (Z.of_nat (length body) <? Z.of_nat (length body)) with false
+      by (symmetry; apply Z.ltb_ge; lia).
+    rewrite app_nil_r. exact Hd.
+  - replace (Z.of_nat (length body) <? Z.of_nat (length body + length (p :: post))) with true
+      by (symmetry; apply Z.ltb_lt; cbn [length]; lia).
+    rewrite firstn_app_exact.
+    replace (length body - (length body + length (p :: post)))%nat with 0%nat by lia.
+    fold (S0 body). rewrite Hd. cbn [win]. rewrite skipn_app_exact. reflexivity.
+Qed.
+
+Section RT.
+Variable nd : bool.
+
+Lemma dec_packed_ld : forall e d sz body post cur v, is_ld e = true ->
+  sz = Z.of_nat (length body) -> sz < 2 ^ 31 ->
+  d (S0 body) cur = Ok v (S0 []) ->
+  dec_packed e d (S0 (packed e sz body ++ post)) cur = Ok v (S0 post).
+Proof.
+  intros e d sz body post cur v Hld Hsz Hs Hd. unfold dec_packed, packed. rewrite Hld.
+  unfold S0 at 1. rewrite <- app_assoc, read_varint_ok by lia.
+  replace (swrap 32 (u32 sz)) with sz.
+  - subst sz. apply with_limit_exact. exact Hd.
+  - unfold u32. symmetry. apply (swrap_mod_le 32 32); lia.
+Qed.
+
+Lemma dec_packed_nld : forall e d sz body post cur v, is_ld e = false ->
+  d (S0 (body ++ post)) cur = Ok v (S0 post) ->
+  dec_packed e d (S0 (packed e sz body ++ post)) cur = Ok v (S0 post).
+Proof. intros. unfold dec_packed, packed. rewrite H. cbn [app]. exact H0. Qed.
+
+Lemma packed_nonempty : forall e sz body, (is_ld e = false -> body <> []) -> packed e sz body <> [].
+Proof.
+  intros. unfold packed. destruct (is_ld e).
+  - intro E. apply app_eq_nil in E. destruct E as [E _]. exact (varint_nonempty _ E).
+  - cbn. auto.
+Qed.
+
+(* ---------- element loops over a concatenation of self-contained pieces ---------- *)
+Definition piece_ok (d : dec) (dv : val) (pc : list Z) (v : val) : Prop :=
+  pc <> [] /\ forall rest, d (S0 (pc ++ rest)) dv = Ok v (S0 rest).
+
+Lemma seq_loop_pieces : forall cond d dv pcs vals,
+  (forall w, cond (S0 w) = match w with [] => false | _ => true end) ->
+  Forall2 (piece_ok d dv) pcs vals ->
+  forall fuel acc, (length (concat pcs) < fuel)%nat ->
+  seq_loop cond d dv (fun x acc => acc ++ [x]) fuel (S0 (concat pcs)) acc = Ok (VSeq (acc ++ vals)) (S0 []).
+Proof.
+  intros cond d dv pcs vals Hc HF. induction HF as [|pc v pcs vals [Hne Hpc] _ IH]; intros fuel acc Hfuel.
+  - destruct fuel; [cbn in Hfuel; lia|]. cbn [seq_loop concat]. rewrite Hc, app_nil_r. reflexivity.
+  - destruct fuel; [lia|]. cbn [seq_loop concat]. rewrite Hc.
+    destruct (pc ++ concat pcs) eqn:E; [apply app_eq_nil in E; destruct E; contradiction|]. rewrite <- E.
+    rewrite Hpc. unfold shorter, S0. cbn [win].
+    replace (length (concat pcs) <? length (pc ++ concat pcs))%nat with true.
+    + fold (S0 (concat pcs)). rewrite IH. rewrite <- app_assoc. reflexivity.
+      cbn [concat] in Hfuel. rewrite app_length in Hfuel. destruct pc; [contradiction|]. cbn in Hfuel. lia.
+    + symmetry. apply Nat.ltb_lt. rewrite app_length. destruct pc; [contradiction|]. cbn. lia.
+Qed.
+
+Lemma arr_go_pieces : forall d dv pcs vals,
+  Forall2 (piece_ok d dv) pcs vals ->
+  arr_go d (S0 (concat pcs)) (repeat dv (length pcs)) = Ok (VSeq vals) (S0 []).
+Proof.
+  intros d dv pcs vals HF. induction HF as [|pc v pcs vals [Hne Hpc] _ IH].
+  - reflexivity.
+  - cbn [length repeat arr_go concat]. rewrite Hpc, IH. reflexivity.
+Qed.
+End RT.
+
+
+(* the part of the type universe the round-trip theorem is proved for: everything but hash containers *)
+Fixpoint no_hash (t : ty) : Prop :=
+  match t with
+  | TS _ | TStr => True
+  | TVec e | TList e | TArr _ e | TPtr _ e => no_hash e
+  | TSet _ | TMap _ _ => False
+  | TAgg fs => (fix go (fs : list (Z * ty)) : Prop := match fs with [] => True | p :: r => no_hash (snd p) /\ go r end) fs
+  end.
+Lemma no_hash_fields : forall fs,
+  (fix go (fs : list (Z * ty)) : Prop := match fs with [] => True | p :: r => no_hash (snd p) /\ go r end) fs
+  <-> Forall (fun p => no_hash (snd p)) fs.
+Proof.
+  induction fs as [|p r IH]; split; intro H.
+  - constructor. - exact I.
+  - destruct H. constructor; auto. apply IH; auto.
+  - inversion H; subst. split; auto. apply IH; auto.
+Qed.
+
+Fixpoint enc_fields (fs : list (Z * ty)) (l : list val) : list Z :=
+  match fs, l with
+  | (num, ft) :: fs', x :: l' => field num ft (ssize ft x) (encode ft x) ++ enc_fields fs' l'
+  | _, _ => []
+  end.
+Fixpoint norm_fields (fs : list (Z * ty)) (l : list val) : list val :=
+  match fs, l with
+  | (_, ft) :: fs', x :: l' => norm ft x :: norm_fields fs' l'
+  | _, _ => []
+  end.
+Fixpoint wf_fields (fs : list (Z * ty)) (l : list val) : Prop :=
+  match fs, l with
+  | [], [] => True
+  | (_, ft) :: fs', x :: l' => wf ft x /\ small (ssize ft x) /\ wf_fields fs' l'
+  | _, _ => False
+  end.
+Lemma encode_agg : forall fs l, encode (TAgg fs) (VSeq l) = enc_fields fs l.
+Proof. induction fs as [|[n ft] fs IH]; intros l; [reflexivity|]. destruct l; [reflexivity|]. cbn [enc_fields]. rewrite <- IH. reflexivity. Qed.
+Lemma norm_agg : forall fs l, norm (TAgg fs) (VSeq l) = VSeq (norm_fields fs l).
+Proof.
+  intros. reflexivity.
+Qed.
+Lemma wf_agg : forall fs l, wf (TAgg fs) (VSeq l) <-> wf_fields fs l.
+Proof.
+  induction fs as [|[n ft] fs IH]; intros l; destruct l; cbn [wf wf_fields]; try tauto.
+Qed.
+
+Fixpoint nonnull (t : ty) (v : val) : Prop :=
+  match t, v with
+  | TPtr _ e, VSome x => nonnull e x
+  | TPtr _ _, _ => False
+  | _, _ => True
+  end.
+
+Lemma nld_cases : forall t, is_ld t = false -> (exists k, t = TS k) \/ (exists sh e, t = TPtr sh e /\ is_ld e = false).
+Proof.
+  intros t H. destruct t; try (cbn in H; discriminate).
+  - left. eauto.
+  - right. exists sh, t. split; auto.
+Qed.
+
+Lemma nld_nonempty : forall t v, is_ld t = false -> wf t v -> nonnull t v -> encode t v <> [].
+Proof.
+  induction t; intros v Hld Hwf Hnn; try (cbn in Hld; discriminate).
+  - destruct v; cbn in Hwf; try contradiction. apply sk_encode_nonempty.
+  - destruct v; cbn in Hnn; try contradiction. cbn [encode]. apply IHt; auto.
+Qed.
+
+Lemma nld_size_nonnull : forall t v, is_ld t = false -> wf t v -> ssize t v <> 0 -> nonnull t v.
+Proof.
+  induction t; intros v Hld Hwf Hs; try (cbn in Hld; discriminate).
+  - exact I.
+  - destruct v; cbn in Hwf; try contradiction.
+    cbn. apply IHt; auto.
+Qed.
+
+Lemma length_zero_nil : forall (l : list Z), Z.of_nat (length l) = 0 -> l = [].
+Proof. destruct l; cbn; intros; auto. lia. Qed.
+
+Section RT2.
+Variable nd : bool.
+
+Definition RT (t : ty) : Prop := forall v, ty_ok t -> no_hash t -> wf t v ->
+  (is_ld t = true -> decode nd t (S0 (encode t v)) (dflt t) = Ok (norm t v) (S0 []))
+  /\ (is_ld t = false -> nonnull t v ->
+      forall post cur, decode nd t (S0 (encode t v ++ post)) cur = Ok (norm t v) (S0 post)).
+
+Lemma elem_piece : forall e x, RT e -> elem_ok e = true -> ty_ok e -> no_hash e -> wf e x -> small (ssize e x) ->
+  piece_ok (dec_packed e (decode nd e)) (dflt e) (packed e (ssize e x) (encode e x)) (norm e x).
+Proof.
+  intros e x HRT Hel Hok Hnh Hwf Hs. destruct (HRT x Hok Hnh Hwf) as [A B].
+  pose proof (size_exact e x Hok Hwf) as Hsz.
+  destruct (is_ld e) eqn:Hld.
+  - split. apply packed_nonempty. congruence.
+    intros rest. apply dec_packed_ld; auto.
+  - destruct (nld_cases e Hld) as [[k ->]|(sh & e' & -> & _)]; [|exfalso; unfold elem_ok in Hel; congruence].
+    split. apply packed_nonempty. intros _. destruct x; cbn in Hwf; try contradiction. apply sk_encode_nonempty.
+    intros rest. apply dec_packed_nld; auto.
+Qed.
+
+Lemma elems_pieces : forall e l, RT e -> elem_ok e = true -> ty_ok e -> no_hash e -> welems e l ->
+  Forall2 (piece_ok (dec_packed e (decode nd e)) (dflt e))
+          (map (fun x => packed e (ssize e x) (encode e x)) l) (map (norm e) l).
+Proof.
+  intros e l HRT Hel Hok Hnh Hl. induction Hl as [|x r [Hx Hs] _ IH]; cbn; constructor; auto.
+  apply elem_piece; auto.
+Qed.
+
+Lemma cond_vec : forall w, vec_loop_cond (bul (S0 w)) = match w with [] => false | _ => true end.
+Proof.
+  intros. unfold vec_loop_cond, bul, S0. cbn [ext win]. destruct w; cbn [length]. reflexivity.
+  apply Z.gtb_lt. lia.
+Qed.
+Lemma cond_data : forall w, has_data (S0 w) = match w with [] => false | _ => true end.
+Proof. intros. destruct w; reflexivity. Qed.
+
+Lemma flat_map_concat : forall (A B : Type) (f : A -> list B) l, flat_map f l = concat (map f l).
+Proof. intros. induction l; cbn; auto. rewrite IHl. reflexivity. Qed.
+
+(* ---------- aggregates ---------- *)
+Definition tbl (fs : list (Z * ty)) : list (Z * (Z -> dec)) :=
+  map (fun p => (fst p, dec_field nd (snd p) (decode nd (snd p)))) fs.
+
+Lemma find_field_nth : forall fs i num t k, NoDup (map fst fs) -> nth_error fs i = Some (num, t) ->
+  find_field num (tbl fs) k = Some ((k + i)%nat, dec_field nd t (decode nd t)).
+Proof.
+  induction fs as [|[n' t'] fs IH]; intros i num t k Hnd Hn.
+  - destruct i; discriminate.
+  - cbn [tbl map find_field fst snd]. inversion Hnd as [|? ? Hnotin Hnd']; subst. destruct i.
+    + cbn in Hn. inversion Hn; subst. rewrite Z.eqb_refl. rewrite Nat.add_0_r. reflexivity.
+    + cbn in Hn. assert (n' <> num).
+      { intros ->. apply Hnotin. apply nth_error_In in Hn. apply in_map_iff. exists (num, t). auto. }
+      replace (n' =? num) with false by (symmetry; apply Z.eqb_neq; auto).
+      fold (tbl fs). rewrite (IH i num t (S k)); auto. f_equal. f_equal. lia.
+Qed.
+
+Lemma tag_facts : forall num t, 0 < num < 2 ^ 29 ->
+  u32 (tag_of num t) = tag_of num t /\ tag_field_number (tag_of num t) = num /\ tag_wire (tag_of num t) = wire t.
+Proof.
+  intros num t H. pose proof (tag_range num t). pose proof (wire_range t). rewrite tag_of_add in * by lia.
+  split; [|split].
+  - unfold u32. apply Z.mod_small. lia.
+  - unfold tag_field_number. rewrite Z.shiftr_div_pow2 by lia. change (2 ^ 3) with 8.
+    rewrite Z.div_add_l by lia. rewrite (Z.div_small (wire t)) by lia. lia.
+  - unfold tag_wire. change 7 with (Z.ones 3). rewrite Z.land_ones by lia. change (2 ^ 3) with 8.
+    rewrite Z.add_comm, Z.mod_add by lia. apply Z.mod_small. lia.
+Qed.
+
+Lemma has_data_app : forall a b, a <> [] -> has_data (S0 (a ++ b)) = true.
+Proof. intros. destruct a; [contradiction|]. reflexivity. Qed.
+
+Lemma upd_nth_app : forall (pre : list val) x y rest, upd_nth (length pre) y (pre ++ x :: rest) = pre ++ y :: rest.
+Proof. induction pre; intros; cbn. reflexivity. rewrite IHpre. reflexivity. Qed.
+
+Lemma agg_step : forall fs i num t x rest cur fuel,
+  NoDup (map fst fs) -> nth_error fs i = Some (num, t) -> 0 < num < 2 ^ 29 ->
+  ty_ok t -> no_hash t -> wf t x -> small (ssize t x) -> ssize t x <> 0 -> RT t ->
+  nth i cur VNull = dflt t ->
+  agg_loop (tbl fs) (S fuel) (S0 (field num t (ssize t x) (encode t x) ++ rest)) cur
+  = agg_loop (tbl fs) fuel (S0 rest) (upd_nth i (norm t x) cur).
+Proof.
+  intros fs i num t x rest cur fuel Hnd Hn Hnum Hok Hnh Hwf Hs Hnz HRT Hcur.
+  destruct (tag_facts num t Hnum) as (Hu & Hfn & Hw). pose proof (tag_range num t) as Htr.
+  pose proof (size_exact t x Hok Hwf) as Hsz. destruct (HRT x Hok Hnh Hwf) as [A B].
+  unfold field. replace (field_skipped (ssize t x)) with false by (symmetry; apply Z.eqb_neq; auto).
+  cbn [agg_loop]. rewrite <- app_assoc. rewrite has_data_app by apply varint_nonempty.
+  unfold S0 at 1. rewrite read_varint_ok by lia. rewrite Hu, Hfn.
+  rewrite (find_field_nth fs i num t 0 Hnd Hn). cbn [Nat.add]. rewrite Hcur.
+  unfold dec_field. rewrite Hw, Z.eqb_refl. cbn [negb]. rewrite andb_false_r.
+  fold (S0 (((if is_ld t then varint (ssize t x) else []) ++ encode t x) ++ rest)).
+  change ((if is_ld t then varint (ssize t x) else []) ++ encode t x) with (packed t (ssize t x) (encode t x)).
+  assert (Hd : dec_packed t (decode nd t) (S0 (packed t (ssize t x) (encode t x) ++ rest)) (dflt t)
+               = Ok (norm t x) (S0 rest)).
+  { destruct (is_ld t) eqn:Hld.
+    - apply dec_packed_ld; auto.
+    - apply dec_packed_nld; auto. apply B; auto. apply nld_size_nonnull; auto. }
+  rewrite Hd. unfold shorter, S0. cbn [win].
+  replace (length rest <? _)%nat with true. reflexivity.
+  symmetry. apply Nat.ltb_lt. rewrite !app_length. pose proof (varint_nonempty (tag_of num t)).
+  destruct (varint (tag_of num t)); [contradiction|]. cbn [length]. lia.
+Qed.
+
+Lemma bb_varint_size_pos : forall n, 0 <= n < 2 ^ 64 -> 0 < bb_varint_size n.
+Proof.
+  intros. rewrite <- varint_length_bb by auto. pose proof (varint_nonempty n). destruct (varint n); [contradiction|].
+  cbn [length]. lia.
+Qed.
+
+Lemma field_size_zero : forall num t sz, 0 < num < 2 ^ 29 -> 0 <= sz < 2 ^ 64 -> 0 <= field_size num t sz /\
+  (field_size num t sz = 0 -> sz = 0).
+Proof.
+  intros num t sz Hn Hs. unfold field_size, size_field_skipped. destruct (sz =? 0) eqn:E.
+  - apply Z.eqb_eq in E. lia.
+  - pose proof (tag_range num t). pose proof (bb_varint_size_pos (tag_of num t)). pose proof (bb_varint_size_pos sz).
+    destruct (is_ld t); lia.
+Qed.
+
+Lemma ssize_agg_cons : forall n ft fs x l,
+  ssize (TAgg ((n, ft) :: fs)) (VSeq (x :: l)) = field_size n ft (ssize ft x) + ssize (TAgg fs) (VSeq l).
+Proof. reflexivity. Qed.
+
+Lemma agg_size_nonneg : forall fs l, fields_ok fs -> wf_fields fs l -> 0 <= ssize (TAgg fs) (VSeq l).
+Proof.
+  induction fs as [|[n ft] fs IH]; intros l Hf Hw; destruct l; cbn [wf_fields] in Hw; try contradiction.
+  - cbn. lia.
+  - rewrite ssize_agg_cons. inversion Hf as [|? ? [Hn Ho] Hr]; subst. destruct Hw as (Wx & Sx & Wr). cbn [fst snd] in *.
+    pose proof (size_exact ft v Ho Wx). unfold small in Sx.
+    pose proof (field_size_zero n ft (ssize ft v) Hn). specialize (IH l Hr Wr). lia.
+Qed.
+(* ---------- values with an empty encoding normalise to the default object ---------- *)
+Lemma elem_packed_nonempty : forall e x, elem_ok e = true -> wf e x -> packed e (ssize e x) (encode e x) <> [].
+Proof.
+  intros e x Hel Hwf. apply packed_nonempty. intros Hld.
+  destruct (nld_cases e Hld) as [[k ->]|(sh & e' & -> & _)].
+  - destruct x; cbn in Hwf; try contradiction. apply sk_encode_nonempty.
+  - exfalso. unfold elem_ok in Hel. congruence.
+Qed.
+
+Lemma seq_empty_of_size0 : forall t e l, (t = TVec e \/ t = TList e \/ t = TSet e \/ exists n, t = TArr n e) ->
+  ty_ok t -> wf t (VSeq l) -> elem_ok e = true -> ssize t (VSeq l) = 0 -> l = [].
+Proof.
+  intros t e l Ht Hok Hwf Hel Hs. destruct l as [|x r]; [reflexivity|]. exfalso.
+  rewrite (size_exact t _ Hok Hwf) in Hs. apply length_zero_nil in Hs.
+  assert (Hx : wf e x).
+  { destruct Ht as [->|[->|[->|[n ->]]]]; cbn [wf] in Hwf; try (destruct Hwf as [Hx _]; exact Hx).
+    destruct Hwf as [_ [Hx _]]. exact Hx. }
+  assert (He : encode t (VSeq (x :: r)) = packed e (ssize e x) (encode e x) ++ encode t (VSeq r)).
+  { destruct Ht as [->|[->|[->|[n ->]]]]; reflexivity. }
+  rewrite He in Hs. apply app_eq_nil in Hs. destruct Hs as [Hs _]. exact (elem_packed_nonempty e x Hel Hx Hs).
+Qed.
+
+Lemma norm_dflt_of_empty : forall t v, ty_ok t -> wf t v -> ssize t v = 0 -> norm t v = dflt t.
+Proof.
+  induction t using ty_ind'; intros v Hok Hwf Hs; destruct v; cbn [wf] in Hwf; try contradiction.
+  - exfalso. cbn [ssize] in Hs. rewrite sk_size_exact in Hs. apply length_zero_nil in Hs. exact (sk_encode_nonempty _ _ Hs).
+  - cbn in Hs. apply length_zero_nil in Hs. subst. reflexivity.
+  - rewrite (seq_empty_of_size0 (TVec t) t l); auto. destruct Hok; auto.
+  - rewrite (seq_empty_of_size0 (TList t) t l); auto. destruct Hok; auto.
+  - rewrite (seq_empty_of_size0 (TSet t) t l); auto. destruct Hok; auto.
+  - (* map *) destruct l as [|p r]; [reflexivity|]. exfalso.
+    destruct p as [| |[|a [|b [|]]]| |]; try contradiction.
+    assert (Hw : wf (TMap t1 t2) (VSeq (VSeq [a; b] :: r))) by exact Hwf.
+    rewrite (size_exact (TMap t1 t2) _ Hok Hw) in Hs. apply length_zero_nil in Hs.
+    cbn [encode flat_map] in Hs. apply app_eq_nil in Hs. destruct Hs as [Hs _].
+    apply app_eq_nil in Hs. destruct Hs as [Hs _].
+    destruct Hok as (Hel & _ & _ & _). destruct Hwf as (Wa & _).
+    exact (elem_packed_nonempty t1 a Hel Wa Hs).
+  - (* array *) assert (Hw : wf (TArr n t) (VSeq l)) by exact Hwf. destruct Hwf as [Hn _].
+    assert (Hel : elem_ok t = true) by (destruct Hok; auto).
+    assert (El : l = []) by (apply (seq_empty_of_size0 (TArr n t) t l); eauto 6).
+    subst l. cbn in Hn. subst n. reflexivity.
+  - reflexivity.
+  - cbn [ssize] in Hs. cbn [norm]. rewrite Hs. reflexivity.
+  - (* aggregate: every field is skipped *)
+    destruct Hok as [_ Hf]. apply ty_ok_fields in Hf. rewrite norm_agg. cbn [dflt]. f_equal.
+    assert (Hw : wf_fields fs l) by (apply wf_agg; exact Hwf). clear Hwf.
+    revert l Hw Hs. induction fs as [|[n ft] fs IH]; intros l Hw Hs; destruct l; cbn [wf_fields] in Hw; try contradiction.
+    + reflexivity.
+    + inversion H as [|? ? Hft Hrest]; subst. inversion Hf as [|? ? [Hn Ho] Hr]; subst. cbn [fst snd] in *.
+      destruct Hw as (Wx & Sx & Wr). rewrite ssize_agg_cons in Hs.
+      pose proof (size_exact ft v Ho Wx) as Hsz. unfold small in Sx.
+      destruct (field_size_zero n ft (ssize ft v) Hn) as [Hge Hz]; [lia|].
+      pose proof (agg_size_nonneg fs l Hr Wr).
+      cbn [norm_fields map snd]. f_equal.
+      * apply Hft; auto. apply Hz. lia.
+      * apply IH; auto. lia.
+Qed.
+
+Lemma agg_in_order : forall suf fs pre lpre lsuf fuel, fs = pre ++ suf ->
+  NoDup (map fst fs) -> fields_ok suf -> Forall (fun p => no_hash (snd p)) suf -> Forall (fun p => RT (snd p)) suf ->
+  length lpre = length pre -> wf_fields suf lsuf -> (length (enc_fields suf lsuf) < fuel)%nat ->
+  agg_loop (tbl fs) fuel (S0 (enc_fields suf lsuf)) (lpre ++ map (fun p => dflt (snd p)) suf)
+  = Ok (VSeq (lpre ++ norm_fields suf lsuf)) (S0 []).
+Proof.
+  induction suf as [|[num t] suf IH]; intros fs pre lpre lsuf fuel Hfs Hnd Hf Hnh HRT Hlen Hw Hfuel;
+    destruct lsuf as [|x l]; cbn [wf_fields] in Hw; try contradiction.
+  - destruct fuel; [cbn in Hfuel; lia|]. reflexivity.
+  - inversion Hf as [|? ? [Hn Ho] Hfr]; subst. inversion Hnh as [|? ? Hnh1 Hnhr]; subst.
+    inversion HRT as [|? ? HRT1 HRTr]; subst. destruct Hw as (Wx & Sx & Wr). cbn [fst snd] in *.
+    cbn [enc_fields norm_fields map snd] in *.
+    assert (Hfs' : pre ++ (num, t) :: suf = (pre ++ [(num, t)]) ++ suf) by (rewrite <- app_assoc; reflexivity).
+    destruct (Z.eq_dec (ssize t x) 0) as [Hz|Hnz].
+    + (* skipped field *)
+      unfold field at 1. replace (field_skipped (ssize t x)) with true by (symmetry; apply Z.eqb_eq; auto).
+      cbn [app]. rewrite (norm_dflt_of_empty t x Ho Wx Hz).
+      replace (lpre ++ dflt t :: map (fun p => dflt (snd p)) suf) with ((lpre ++ [dflt t]) ++ map (fun p => dflt (snd p)) suf)
+        by (rewrite <- app_assoc; reflexivity).
+      replace (lpre ++ dflt t :: norm_fields suf l) with ((lpre ++ [dflt t]) ++ norm_fields suf l)
+        by (rewrite <- app_assoc; reflexivity).
+      apply (IH _ (pre ++ [(num, t)])); auto.
+      * rewrite !app_length. cbn. lia.
+      * unfold field in Hfuel. replace (field_skipped (ssize t x)) with true in Hfuel by (symmetry; apply Z.eqb_eq; auto).
+        exact Hfuel.
+    + destruct fuel; [lia|].
+      rewrite (agg_step _ (length pre) num t x); auto.
+      * rewrite <- Hlen, upd_nth_app.
+        replace (lpre ++ norm t x :: map (fun p => dflt (snd p)) suf) with ((lpre ++ [norm t x]) ++ map (fun p => dflt (snd p)) suf)
+          by (rewrite <- app_assoc; reflexivity).
+        replace (lpre ++ norm t x :: norm_fields suf l) with ((lpre ++ [norm t x]) ++ norm_fields suf l)
+          by (rewrite <- app_assoc; reflexivity).
+        apply (IH _ (pre ++ [(num, t)])); auto.
+        -- rewrite !app_length. cbn. lia.
+        -- rewrite app_length in Hfuel.
+           assert (0 < length (field num t (ssize t x) (encode t x)))%nat; [|lia].
+           unfold field. replace (field_skipped (ssize t x)) with false by (symmetry; apply Z.eqb_neq; auto).
+           rewrite app_length. pose proof (varint_nonempty (tag_of num t)). destruct (varint (tag_of num t)); [contradiction|]. cbn. lia.
+      * rewrite nth_error_app2 by lia. rewrite Nat.sub_diag. reflexivity.
+      * rewrite app_nth2 by lia. rewrite Hlen, Nat.sub_diag. reflexivity.
+Qed.
+
+(* ---------- round trip: scalars, strings, vector/list/array, smart pointers, arbitrarily nested ---------- *)
+Theorem roundtrip_core : forall t, RT t.
+Proof.
+  induction t using ty_ind'; intros v Hok Hnh Hwf; destruct v; cbn [wf] in Hwf; try contradiction.
+  - (* scalar *) split; [cbn; intros; destruct k; discriminate|]. intros _ _ post cur.
+    cbn [decode encode norm]. apply dec_scalar_rt; auto.
+  - (* string *) split; [|cbn; discriminate]. intros _. reflexivity.
+  - (* vector *) split; [|cbn; discriminate]. intros _. destruct Hok as [Hel Hok]. cbn in Hnh.
+    apply wf_elems in Hwf. cbn [decode encode norm dflt seq_items].
+    replace (is_fp t && _) with false by (unfold S0; cbn [ext]; rewrite andb_false_r; reflexivity).
+    rewrite flat_map_concat.
+    rewrite (seq_loop_pieces _ _ _ _ (map (norm t) l));
+      [reflexivity | intros w; apply cond_vec | apply elems_pieces; auto | unfold S0; cbn [win]; lia].
+  - (* list *) split; [|cbn; discriminate]. intros _. destruct Hok as [Hel Hok]. cbn in Hnh.
+    apply wf_elems in Hwf. cbn [decode encode norm dflt seq_items]. rewrite flat_map_concat.
+    rewrite (seq_loop_pieces _ _ _ _ (map (norm t) l));
+      [reflexivity | intros w; apply cond_data | apply elems_pieces; auto | unfold S0; cbn [win]; lia].
+  - (* array *) split; [|cbn; discriminate]. intros _. destruct Hok as [Hel Hok]. cbn in Hnh.
+    destruct Hwf as [Hn Hwf]. apply wf_elems in Hwf. cbn [decode encode norm dflt seq_items]. rewrite flat_map_concat.
+    subst n. rewrite <- (map_length (fun x => packed t (ssize t x) (encode t x)) l).
+    apply arr_go_pieces. apply elems_pieces; auto.
+  - (* null pointer *) split.
+    + intros _. reflexivity.
+    + intros _ Hnn. cbn in Hnn. contradiction.
+  - (* pointer *) cbn in Hok, Hnh. destruct (IHt v Hok Hnh Hwf) as [A B].
+    pose proof (size_exact t v Hok Hwf) as Hsz. split.
+    + intros Hld. cbn [is_ld wire] in Hld. specialize (A Hld). cbn [decode encode norm dflt].
+      rewrite A. destruct (encode t v) as [|b r] eqn:E; unfold has_data, S0; cbn [win].
+      * cbn [length] in Hsz. rewrite Hsz. reflexivity.
+      * replace (ssize t v =? 0) with false. reflexivity.
+        symmetry. apply Z.eqb_neq. rewrite Hsz. cbn [length]. lia.
+    + intros Hld Hnn post cur. cbn [is_ld wire] in Hld. cbn [nonnull] in Hnn. cbn [decode encode norm].
+      pose proof (nld_nonempty t v Hld Hwf Hnn) as Hne. rewrite (B Hld Hnn).
+      destruct (encode t v) as [|b r] eqn:E; [contradiction|]. unfold has_data, S0; cbn [win app].
+      replace (ssize t v =? 0) with false. reflexivity.
+      symmetry. apply Z.eqb_neq. rewrite Hsz. cbn [length]. lia.
+  - (* aggregate *) split; [|cbn; discriminate]. intros _. destruct Hok as [Hnd Hf]. apply ty_ok_fields in Hf.
+    cbn [no_hash] in Hnh. apply no_hash_fields in Hnh.
+    assert (Hw : wf_fields fs l) by (apply wf_agg; exact Hwf).
+    rewrite norm_agg, encode_agg. cbn [decode dflt seq_items]. fold (tbl fs).
+    apply (agg_in_order fs fs [] [] l); auto.
+Qed.
+End RT2.
+
+(* ---------- the full statements are false of the code as it is: witnesses ---------- *)
+(* a null pointer to a scalar inside a container vanishes *)
+Lemma se_roundtrip_refuted_null_scalar_ptr :
+  exists t v, wf t v /\ parse false false t (encode t v) <> Ok (norm t v) (S0 []).
+Proof.
+  exists (TVec (TPtr false (TS KI32))), (VSeq [VSome (VInt 5); VNull; VSome (VInt 7)]).
+  split. cbn. unfold small. cbn. lia. vm_compute. discriminate.
+Qed.
+(* a top-level vector on a stream-backed coded stream without limit parses to nothing *)
+Lemma se_unlimited_refuted :
+  parse false true (TVec (TS KI32)) (encode (TVec (TS KI32)) (VSeq [VInt 1; VInt 2; VInt 3])) = Ok (VSeq []) (mkS [1; 2; 3] None).
+Proof. vm_compute. reflexivity. Qed.
+Lemma se_unlimited_float_crash :
+  parse false true (TVec (TS KF32)) (encode (TVec (TS KF32)) (VSeq [VInt 1065353216])) = Crash.
+Proof. vm_compute. reflexivity. Qed.
+(* eleven continuation bytes where a length prefix is expected: the element loop never ends *)
+Lemma se_terminates_refuted : parse false false (TVec TStr) (repeat 128 11) = Hang.
+Proof. vm_compute. reflexivity. Qed.
+Lemma se_terminates_refuted_nested :
+  parse false false (TAgg [(1, TVec TStr)]) ([10; 11] ++ repeat 255 11) = Hang.
+Proof. vm_compute. reflexivity. Qed.
+
+(* ---------- examples: aggregates, unknown fields, order, defaults (computed on the model) ---------- *)
+Definition ex_ty : ty := TAgg [(1, TS KI32); (2, TStr); (3, TVec (TS KI64)); (4, TPtr false TStr)].
+Definition ex_val : val := VSeq [VInt (-1); VStr [97; 98]; VSeq [VInt 1; VInt 300]; VSome (VStr [])].
+Lemma ex_roundtrip : parse false false ex_ty (encode ex_ty ex_val) = Ok (norm ex_ty ex_val) (S0 []).
+Proof. vm_compute. reflexivity. Qed.
+Lemma ex_norm_nulls_empty_pointee : norm ex_ty ex_val = VSeq [VInt (-1); VStr [97; 98]; VSeq [VInt 1; VInt 300]; VNull].
+Proof. vm_compute. reflexivity. Qed.
+(* unknown fields 13 (varint), 14 (fixed64), 15 (length-delimited), 16 (fixed32) in between, fields reversed *)
+Lemma ex_unknown_and_order :
+  parse false false ex_ty ([104; 5] ++ [26; 3; 1; 172; 2] ++ [113; 1; 2; 3; 4; 5; 6; 7; 8] ++ [18; 2; 97; 98] ++
+                           [122; 2; 9; 9] ++ [8; 255; 255; 255; 255; 15] ++ [133; 1; 1; 2; 3; 4])
+  = Ok (norm ex_ty ex_val) (S0 []).
+Proof. vm_compute. reflexivity. Qed.
+Lemma ex_absent_keep_defaults :
+  parse false false ex_ty [18; 2; 97; 98] = Ok (VSeq [VInt 0; VStr [97; 98]; VSeq []; VNull]) (S0 []).
+Proof. vm_compute. reflexivity. Qed.
+
+(* ---------- corollaries in terms of parse ---------- *)
+Lemma roundtrip_ld : forall nd t v, ty_ok t -> no_hash t -> wf t v -> is_ld t = true ->
+  parse nd false t (encode t v) = Ok (norm t v) (S0 []).
+Proof. intros nd t v Hok Hnh Hwf Hld. unfold parse. destruct (roundtrip_core nd t v Hok Hnh Hwf) as [A _]. apply A, Hld. Qed.
+Lemma roundtrip_nld : forall nd t v post, ty_ok t -> no_hash t -> wf t v -> is_ld t = false -> nonnull t v ->
+  parse nd false t (encode t v ++ post) = Ok (norm t v) (S0 post).
+Proof.
+  intros nd t v post Hok Hnh Hwf Hld Hnn. unfold parse. destruct (roundtrip_core nd t v Hok Hnh Hwf) as [_ B].
+  apply B; auto.
+Qed.
+(* what a successful round trip returns serializes to the same bytes when no pointer was normalised *)
+Lemma wf_example : wf ex_ty ex_val /\ ty_ok ex_ty /\ no_hash ex_ty /\ is_ld ex_ty = true.
+Proof. cbn. unfold small. cbn. repeat split; try lia; repeat constructor; cbn; intuition lia. Qed.
+
+(* ---------- protobuf compatibility of aggregates: unknown fields, any order, absent fields ---------- *)
+Inductive unknown_payload : Z -> list Z -> Prop :=
+| UVar : forall v, 0 <= v < 2 ^ 64 -> unknown_payload 0 (varint v)
+| UF64 : forall b, length b = 8%nat -> unknown_payload 1 b
+| UF32 : forall b, length b = 4%nat -> unknown_payload 5 b
+| ULD : forall b, Z.of_nat (length b) < 2 ^ 31 -> unknown_payload 2 (varint (Z.of_nat (length b)) ++ b).
+
+Section Compat.
+Variable nd : bool.
+
+Lemma find_field_none : forall fs num k, ~ In num (map fst fs) -> find_field num (tbl nd fs) k = None.
+Proof.
+  induction fs as [|[n t] fs IH]; intros num k Hn. reflexivity.
+  cbn [tbl map find_field fst snd]. cbn [map fst] in Hn.
+  replace (n =? num) with false by (symmetry; apply Z.eqb_neq; intros ->; apply Hn; left; reflexivity).
+  apply IH. intros H. apply Hn. right. exact H.
+Qed.
+
+Lemma skip_exact : forall b rest, skip (Z.of_nat (length b)) (S0 (b ++ rest)) = Some (S0 rest).
+Proof.
+  intros. unfold skip, S0. cbn [win]. rewrite app_length.
+  replace (0 <=? Z.of_nat (length b)) with true by (symmetry; apply Z.leb_le; lia).
+  replace (Z.of_nat (length b) <=? Z.of_nat (length b + length rest)) with true by (symmetry; apply Z.leb_le; lia).
+  cbn [andb]. rewrite Nat2Z.id, skipn_app_exact. reflexivity.
+Qed.
+
+Lemma agg_unknown_step : forall fs num w pay rest cur fuel,
+  0 <= num < 2 ^ 29 -> ~ In num (map fst fs) -> unknown_payload w pay ->
+  agg_loop (tbl nd fs) (S fuel) (S0 ((varint (num * 8 + w) ++ pay) ++ rest)) cur
+  = agg_loop (tbl nd fs) fuel (S0 rest) cur.
+Proof.
+  intros fs num w pay rest cur fuel Hnum Hnin Hp.
+  assert (Hw : 0 <= w < 8) by (inversion Hp; lia).
+  assert (Hu : u32 (num * 8 + w) = num * 8 + w) by (unfold u32; apply Z.mod_small; lia).
+  assert (Hfn : tag_field_number (num * 8 + w) = num).
+  { unfold tag_field_number. rewrite Z.shiftr_div_pow2 by lia. change (2 ^ 3) with 8.
+    rewrite Z.div_add_l by lia. rewrite (Z.div_small w) by lia. lia. }
+  assert (Huw : unknown_wire (num * 8 + w) = w).
+  { unfold unknown_wire. change 7 with (Z.ones 3). rewrite Z.land_ones by lia. change (2 ^ 3) with 8.
+    rewrite Z.add_comm, Z.mod_add by lia. apply Z.mod_small. lia. }
+  cbn [agg_loop]. rewrite <- !app_assoc. rewrite has_data_app by apply varint_nonempty.
+  unfold S0 at 1. rewrite read_varint_ok by lia. rewrite Hu, Hfn, find_field_none by auto.
+  assert (Hc : consume_unknown (num * 8 + w) (S0 (pay ++ rest)) = Some (S0 rest)).
+  { unfold consume_unknown. rewrite Huw. inversion Hp; subst; cbn [Z.eqb Pos.eqb].
+    - unfold S0. rewrite read_varint_ok by lia. reflexivity.
+    - change skip_fixed64 with (Z.of_nat 8). rewrite <- H. apply skip_exact.
+    - change skip_fixed32 with (Z.of_nat 4). rewrite <- H. apply skip_exact.
+    - unfold S0 at 1. rewrite <- app_assoc, read_varint_ok by lia.
+      unfold unknown_ld_skip. unfold u64. rewrite Z.mod_small by lia.
+      replace (swrap 32 (u32 (Z.of_nat (length b)))) with (Z.of_nat (length b)).
+      apply skip_exact. unfold u32. symmetry. apply (swrap_mod_le 32 32); lia. }
+  fold (S0 (pay ++ rest)). rewrite Hc. unfold shorter, S0. cbn [win].
+  replace (length rest <? _)%nat with true. reflexivity.
+  symmetry. apply Nat.ltb_lt. rewrite !app_length. pose proof (varint_nonempty (num * 8 + w)).
+  destruct (varint (num * 8 + w)); [contradiction|]. cbn [length]. lia.
+Qed.
+
+Inductive chunk := CF (i : nat) (x : val) | CU (num w : Z) (pay : list Z).
+Definition chunk_bytes (fs : list (Z * ty)) (c : chunk) : list Z :=
+  match c with
+  | CF i x => match nth_error fs i with Some (num, t) => field num t (ssize t x) (encode t x) | None => [] end
+  | CU num w pay => varint (num * 8 + w) ++ pay
+  end.
+Definition chunk_ok (fs : list (Z * ty)) (c : chunk) : Prop :=
+  match c with
+  | CF i x => exists num t, nth_error fs i = Some (num, t) /\ wf t x /\ small (ssize t x) /\ ssize t x <> 0
+  | CU num w pay => 0 <= num < 2 ^ 29 /\ ~ In num (map fst fs) /\ unknown_payload w pay
+  end.
+Definition chunk_apply (fs : list (Z * ty)) (cur : list val) (c : chunk) : list val :=
+  match c with
+  | CF i x => match nth_error fs i with Some (_, t) => upd_nth i (norm t x) cur | None => cur end
+  | CU _ _ _ => cur
+  end.
+Definition chunk_idx (c : chunk) : list nat := match c with CF i _ => [i] | _ => [] end.
+
+Lemma nth_upd_other : forall l i j y, i <> j -> nth j (upd_nth i y l) VNull = nth j l VNull.
+Proof.
+  induction l as [|a l IH]; intros i j y H; destruct i, j; cbn; auto; try lia.
+Qed.
+
+Lemma chunk_nonempty : forall fs c, chunk_ok fs c -> chunk_bytes fs c <> [].
+Proof.
+  intros fs [i x|num w pay] H; cbn in *.
+  - destruct H as (num & t & Hn & _ & _ & Hnz). rewrite Hn. unfold field.
+    replace (field_skipped (ssize t x)) with false by (symmetry; apply Z.eqb_neq; auto).
+    intro E. apply app_eq_nil in E. destruct E as [E _]. exact (varint_nonempty _ E).
+  - intro E. apply app_eq_nil in E. destruct E as [E _]. exact (varint_nonempty _ E).
+Qed.
+
+Theorem agg_chunks : forall fs, ty_ok (TAgg fs) -> no_hash (TAgg fs) ->
+  forall cs cur fuel, Forall (chunk_ok fs) cs -> NoDup (flat_map chunk_idx cs) ->
+  (forall i num t, In i (flat_map chunk_idx cs) -> nth_error fs i = Some (num, t) -> nth i cur VNull = dflt t) ->
+  (length (concat (map (chunk_bytes fs) cs)) < fuel)%nat ->
+  agg_loop (tbl nd fs) fuel (S0 (concat (map (chunk_bytes fs) cs))) cur
+  = Ok (VSeq (fold_left (chunk_apply fs) cs cur)) (S0 []).
+Proof.
+  intros fs [Hnd Hf] Hnh. apply ty_ok_fields in Hf. cbn [no_hash] in Hnh. apply no_hash_fields in Hnh.
+  induction cs as [|c cs IH]; intros cur fuel Hok Hdis Hcur Hfuel.
+  - destruct fuel; [cbn in Hfuel; lia|]. reflexivity.
+  - inversion Hok as [|? ? Hc Hcs]; subst. cbn [map concat fold_left] in *.
+    pose proof (chunk_nonempty fs c Hc) as Hne.
+    destruct fuel; [lia|]. rewrite app_length in Hfuel.
+    assert (0 < length (chunk_bytes fs c))%nat by (destruct (chunk_bytes fs c); [contradiction|cbn; lia]).
+    destruct c as [i x|num w pay]; cbn [chunk_bytes chunk_apply chunk_idx flat_map app] in *.
+    + destruct Hc as (num & t & Hn & Wx & Sx & Hnz). rewrite Hn in *.
+      pose proof (nth_error_In _ _ Hn) as Hin.
+      destruct (proj1 (Forall_forall _ _) Hf _ Hin) as [Hnum Hokt].
+      pose proof (proj1 (Forall_forall _ _) Hnh _ Hin) as Hnht. cbn [fst snd] in *.
+      inversion Hdis as [|? ? Hnotin Hdis']; subst.
+      assert (Hci : nth i cur VNull = dflt t) by (apply (Hcur i num t); [left; reflexivity|exact Hn]).
+      rewrite (agg_step nd fs i num t x _ cur fuel Hnd Hn Hnum Hokt Hnht Wx Sx Hnz (roundtrip_core nd t) Hci).
+      apply IH; auto.
+      * intros j num' t' Hj Hn'. assert (i <> j) by (intros ->; contradiction).
+        rewrite nth_upd_other by auto. apply (Hcur j num' t'); auto. right. exact Hj.
+      * lia.
+    + destruct Hc as (Hnum & Hnin & Hp).
+      rewrite agg_unknown_step; auto. apply IH; auto. lia.
+Qed.
+
+(* parsing any sequence of distinct known fields and unknown fields, in any order, into a fresh object *)
+Theorem compat_parse : forall fs cs, ty_ok (TAgg fs) -> no_hash (TAgg fs) ->
+  Forall (chunk_ok fs) cs -> NoDup (flat_map chunk_idx cs) ->
+  parse nd false (TAgg fs) (concat (map (chunk_bytes fs) cs))
+  = Ok (VSeq (fold_left (chunk_apply fs) cs (map (fun p => dflt (snd p)) fs))) (S0 []).
+Proof.
+  intros fs cs Hok Hnh Hcs Hdis. unfold parse. cbn [decode dflt seq_items]. fold (tbl nd fs).
+  apply agg_chunks; auto.
+  intros i num t _ Hn. rewrite (nth_indep _ VNull (dflt (snd (num, t)))).
+  - change (dflt (snd (num, t))) with ((fun p => dflt (snd p)) (num, t)). rewrite map_nth.
+    rewrite (nth_error_nth _ _ _ Hn). reflexivity.
+  - rewrite map_length. apply nth_error_Some. congruence.
+Qed.
+
+(* the order of the fields does not matter *)
+Lemma upd_nth_comm : forall l i j a b, i <> j -> upd_nth i a (upd_nth j b l) = upd_nth j b (upd_nth i a l).
+Proof.
+  induction l as [|x l IH]; intros i j a b H; destruct i, j; cbn; auto; try lia. f_equal. apply IH. lia.
+Qed.
+
+Lemma chunk_apply_comm : forall fs cur x y, NoDup (chunk_idx x ++ chunk_idx y) ->
+  chunk_apply fs (chunk_apply fs cur x) y = chunk_apply fs (chunk_apply fs cur y) x.
+Proof.
+  intros fs cur [i a|? ? ?] [j b|? ? ?] H; cbn [chunk_apply]; auto.
+  destruct (nth_error fs i) as [[? ti]|], (nth_error fs j) as [[? tj]|]; auto.
+  apply upd_nth_comm. cbn in H. inversion H as [|? ? Hn _]; subst. intros ->. apply Hn. left. reflexivity.
+Qed.
+
+Lemma NoDup_app_l : forall (A : Type) (a b : list A), NoDup (a ++ b) -> NoDup a.
+Proof.
+  induction a; intros b H. constructor. cbn in H. inversion H; subst. constructor.
+  - intro Hin. apply H2. apply in_or_app. left. exact Hin.
+  - eapply IHa; eauto.
+Qed.
+Lemma NoDup_app_r : forall (A : Type) (a b : list A), NoDup (a ++ b) -> NoDup b.
+Proof. induction a; intros b H. exact H. cbn in H. inversion H; subst. apply IHa. auto. Qed.
+
+Lemma fold_chunks_perm : forall fs cs cs', Permutation cs cs' -> NoDup (flat_map chunk_idx cs) ->
+  forall cur, fold_left (chunk_apply fs) cs cur = fold_left (chunk_apply fs) cs' cur.
+Proof.
+  intros fs cs cs' HP. induction HP; intros Hd cur.
+  - reflexivity.
+  - cbn [fold_left]. apply IHHP. cbn [flat_map] in Hd. apply NoDup_app_r in Hd. exact Hd.
+  - cbn [fold_left]. f_equal. apply chunk_apply_comm. cbn [flat_map] in Hd.
+    rewrite app_assoc in Hd. apply NoDup_app_l in Hd.
+    exact Hd.
+  - rewrite IHHP1 by auto. apply IHHP2.
+    apply (Permutation_NoDup (Permutation_flat_map chunk_idx HP1)). exact Hd.
+Qed.
+
+Theorem compat_order_irrelevant : forall fs cs cs', ty_ok (TAgg fs) -> no_hash (TAgg fs) ->
+  Forall (chunk_ok fs) cs -> NoDup (flat_map chunk_idx cs) -> Permutation cs cs' ->
+  exists v, parse nd false (TAgg fs) (concat (map (chunk_bytes fs) cs)) = Ok v (S0 []) /\
+            parse nd false (TAgg fs) (concat (map (chunk_bytes fs) cs')) = Ok v (S0 []).
+Proof.
+  intros fs cs cs' Hok Hnh Hcs Hd HP. eexists. split.
+  - apply compat_parse; auto.
+  - rewrite (fold_chunks_perm fs cs cs' HP Hd). apply compat_parse; auto.
+    + apply (Permutation_Forall HP). exact Hcs.
+    + apply (Permutation_NoDup (Permutation_flat_map chunk_idx HP)). exact Hd.
+Qed.
+End Compat.
+
+Lemma compat_example :
+  Forall (chunk_ok [(1, TS KI32); (2, TStr)]) [CU 15 2 (varint 2 ++ [7; 8]); CF 1 (VStr [97]); CU 9 0 (varint 300); CF 0 (VInt (-1))]
+  /\ NoDup (flat_map chunk_idx [CU 15 2 (varint 2 ++ [7; 8]); CF 1 (VStr [97]); CU 9 0 (varint 300); CF 0 (VInt (-1))]).
+Proof.
+  split.
+  - repeat constructor; cbn; try lia; try (intros [H|[H|H]]; try discriminate; auto).
+    + change [7; 8] with ([7; 8] : list Z). apply (ULD [7; 8]). cbn. lia.
+    + exists 2, TStr. cbn. unfold small. cbn. repeat split; lia.
+    + exists 1, (TS KI32). cbn. unfold small. cbn. repeat split; lia.
+  - cbn. repeat constructor; cbn; intuition lia.
+Qed.
